@@ -585,10 +585,11 @@ def hist_stmts():
         out.append(("every x = %s" % VAL[v][1]))
         out.append(("x, y = %s, %s" % (VAL[v][1], "0")))
         out.append(("y = %s; swap x, y" % VAL[v][1]))
+        out.append(("y = %s; swap y, x" % VAL[v][1]))      # the annotated variable as the second target
         out.append(("x[0] = %s" % VAL[v][1]))
     out += ["x[0], x[1] = 7, 8", "swap x[0], x[1]", "every x[0:2] = 9", "x[1] = [1]", 'x[0] = "s"', "x[0] = 1.5", "x[1] += 1",
             "x += 1", "x += 1.5", "x append= 1", 'x $= "s"', "x *= 2", "x .= str", "x[0] += 1.5", "x[0] append= 1", "x max= 7", "x = x", "x //= 2",
-            "x ++= [1]", "x /= 2"]
+            "x ++= [1]", "x /= 2", "y = 1.5; swap y, x[0]", "y = [1.5, null]; swap y[1], x[0]", "y, x = 0, 1.5", "y, x[0] = 0, null"]
     return out
 
 
